@@ -49,16 +49,27 @@ GeneAt(gen, i) == LET o == 7 * (i - 1) IN
    p2 |-> <<gen[o + 5] - 5, gen[o + 6] - 5, gen[o + 7] - 5>>]
 PoseKinds == {"neither", "pos", "quat", "both"}
 
+\* orientation of node i; gene value 7 (of 0..7) under a jointless parent means "exactly undo the parent's rotation",
+\* so that the composed orientation is the identity (a boundary the re-serialisation must get right)
+RECURSIVE QuatFor(_, _, _, _)
+QuatFor(shape, i, gen, pk) ==
+  LET k == shape[i][1]
+      g == GeneAt(gen, i)
+      par == shape[i][2]
+      hasQuat == IF k = "W" THEN pk[i] \in {"quat", "both"} ELSE TRUE
+      cancel == par # 0 /\ shape[par][1] = "W" /\ g.q = QuatList[8] /\ QuatFor(shape, par, gen, pk) # RQId
+  IN  IF ~hasQuat \/ k = "F" THEN RQId
+      ELSE IF cancel THEN RQConj(QuatFor(shape, par, gen, pk))
+      ELSE IF k = "W" /\ g.q = <<1, 0, 0, 0, 1>> THEN QuatOf(<<3, 4, 0, 0, 5>>) ELSE QuatOf(g.q)
+
 MkNode(shape, i, gen, pk) ==
   LET k == shape[i][1]
       g == GeneAt(gen, i)
       hasPos  == IF k = "W" THEN pk[i] \in {"pos", "both"} ELSE TRUE
-      hasQuat == IF k = "W" THEN pk[i] \in {"quat", "both"} ELSE TRUE
       \* make sure a weld body that claims a pos / quat really has a non-trivial one
       pos == IF ~hasPos THEN ZeroPos
              ELSE IF k = "W" /\ g.p = <<0, 0, 0>> THEN PosOf(<<1, -2, 3>>) ELSE PosOf(g.p)
-      qt  == IF ~hasQuat \/ k = "F" THEN RQId
-             ELSE IF k = "W" /\ g.q = <<1, 0, 0, 0, 1>> THEN QuatOf(<<3, 4, 0, 0, 5>>) ELSE QuatOf(g.q)
+      qt  == QuatFor(shape, i, gen, pk)
   IN  [kind |-> k, parent |-> shape[i][2], pos |-> IF k = "F" THEN ZeroPos ELSE pos, quat |-> qt,
        ft |-> IF k = "F" THEN <<PosOf(g.p), PosOf(<<g.p2[1] + 1, g.p2[2], g.p2[3] + 2>>)>> ELSE <<>>,
        alive |-> TRUE]
